@@ -38,7 +38,7 @@ def gen(seed, tier):
             spec["args"] = rng.choice(ARGS)
             spec["kwargs"] = rng.choice(KWARGS)
             if rng.random() < 0.3:
-                spec["callable"] = rng.choice(["partial", "partial-args", "method", "instance", "unhashable-instance"] + (["lambda"] if fl != "threading" else []))
+                spec["callable"] = rng.choice(["partial", "partial-args", "method", "instance", "unhashable-instance", "module-none"] + (["lambda"] if fl != "threading" else []))
             if rng.random() < 0.12:
                 # the same callable object adopted several times without arguments: that many payloads
                 spec["args"], spec["kwargs"], spec["times"] = [], {}, rng.choice([2, 3, 5])
